@@ -88,6 +88,20 @@ func Build(d DatumSpec) interface{} {
 		v = genScalarOrSmall(r)
 	case d.Gen == "longlist":
 		v = genLongList(r)
+	case d.Gen == "coll:huge":
+		// large enough for any "big input" path (chunking, parallelism, binary
+		// search); a few elements of another kind sit at seeded positions
+		n := r.Range(1030, 1300)
+		l := make([]interface{}, n)
+		for i := range l {
+			l[i] = map[string]interface{}{"X": i % 7, "y": "s", "B": i%2 == 0}
+		}
+		l[r.Intn(n)] = 12345
+		l[r.Intn(n)] = "odd one out"
+		if r.Chance(0.5) {
+			l[r.Intn(n)] = []int{1}
+		}
+		v = l
 	case d.Gen == "coll:long":
 		n := r.Range(9, 40)
 		l := make([]Inner, n)
